@@ -38,6 +38,10 @@ pub(crate) mod keys_proto {
 /// correspondence harness. Adds code only.
 #[cfg(feature = "verif")]
 pub mod verif {
+    /// The prost-generated `keys.proto` message (decoded by `RemotePublicKey::from_protobuf_encoding`).
+    pub use super::keys_proto::PublicKey as VerifPublicKeyProto;
+    /// The prost-generated `noise.proto` handshake payload messages.
+    pub use super::noise::{VerifNoiseExtensions, VerifNoiseHandshakePayload};
     pub use super::noise::{
         handshake, verif_parse_and_verify_peer_id, HandshakeTransport, NoiseSocket, VERIF_CONSTS,
         VERIF_STATIC_KEY_DOMAIN,
